@@ -105,3 +105,23 @@ pub proof fn lemma_prefix_of(s: Seq<u8>)
         if exists|i: int| first_colon(s, i) { let i = choose|i: int| first_colon(s, i); assert(s[i] != 0x3a); }
     }
 }
+
+/// the binding at index i is in effect: bound to a non-empty namespace and not re-declared later
+pub open spec fn listed(bs: Seq<ns_::NamespaceEntry>, buf: Seq<u8>, i: int) -> bool {
+    0 <= i < bs.len() && bs[i].value_len > 0
+        && forall|j: int| i < j < bs.len() ==> (#[trigger] bs[j]).spec_prefix(buf) != bs[i].spec_prefix(buf)
+}
+/// a listed binding is what resolution of its prefix yields (C05: "the in-scope prefix listing agrees with this")
+pub proof fn lemma_listed_resolves(bs: Seq<ns_::NamespaceEntry>, buf: Seq<u8>, i: int)
+    requires listed(bs, buf, i)
+    ensures spec_resolve(bs, buf, bs[i].spec_prefix(buf), true) == AbsRes::Bound(bs[i].spec_value(buf))
+{
+    let p = bs[i].spec_prefix(buf);
+    assert forall|j: int| i < j < bs.len() implies (#[trigger] bs[j]).decides(buf, p, true) is None by {
+        assert(bs[j].spec_prefix(buf) != p);
+    }
+    lemma_resolve_at(bs, buf, p, true, i);
+}
+pub open spec fn pd_view<'a>(p: ns_::PrefixDeclaration<'a>) -> Option<Seq<u8>> {
+    match p { ns_::PrefixDeclaration::Default => None, ns_::PrefixDeclaration::Named(x) => Some(x@) }
+}
